@@ -387,4 +387,21 @@ fn run(ctx: &mut Ctx) {
         let aseed = rng.next() >> 16;
         emit(ctx, "random", &e, aseed);
     }
+
+    // 5. literals with a negative-zero component (finite, but the sign of a zero is not printed).  Built and
+    //    dropped one at a time, with magnitudes used nowhere else in this binary: quil-rs interns expression
+    //    children under an equality that identifies -0.0 with +0.0 (known finding C13/interning-merges-signed-zero).
+    for k in 0..8 {
+        let e = match k {
+            0 => call(SquareRoot, num(-9.0, -0.0)),
+            1 => infix(num(-16.0, -0.0), I::Caret, real(0.25)),
+            2 => num(-0.0, 0.0),
+            3 => num(-0.0, -0.0),
+            4 => num(-0.0, 17.0),
+            5 => num(19.0, -0.0),
+            6 => call(SquareRoot, num(-0.0, -23.0)),
+            _ => prefix(P::Minus, num(-25.0, -0.0)),
+        };
+        emit(ctx, "negzero", &e, fixed);
+    }
 }
